@@ -251,7 +251,7 @@ def uniform_rhs_paths(rep, tier, rng):
 def run(tier, seed):
     rep = Report(PROP, tier, seed, 'model_checking')
     rng = random.Random(seed)
-    cfg = ('SPECIFICATION Spec\nCONSTANTS LAT = %d\n GRIDS <- %s\n DATASETS <- MCData1\n MAXD = 2\nINVARIANT C17_KeyDeterminesValue\nINVARIANT C16_Symmetric\nCHECK_DEADLOCK FALSE\n'
+    cfg = ('SPECIFICATION Spec\nCONSTANTS LAT = %d\n GRIDS <- %s\n DATASETS <- MCData1\n MAXD = 2\n MAXPTS = 100000\nINVARIANT C17_KeyDeterminesValue\nINVARIANT C16_Symmetric\nCHECK_DEADLOCK FALSE\n'
            % (LAT, 'MCGrids' if tier == 'quick' else 'MCGridsBig'))
     r, g = tlc.run('MC_HatSystems', cfg, 'c17', dump=True, timeout=3000)
     rep.tlc('HatSystems (cache keys) ' + tier, r)
